@@ -7,7 +7,6 @@ an `…_native.bv_decide.ax_*` axiom which the audit lists by name.
 -/
 import ElfioVerif.Basic
 import ElfioVerif.Gen.Funcs
-import ElfioVerif.Gen.SitesC09
 import ElfioVerif.Spec.Symbols
 import Std.Tactic.BVDecide
 
@@ -68,18 +67,19 @@ theorem gnu_hash_step (h : BitVec 32) (c : BitVec 8) :
   simp only [Spec.gnuStep]
   bv_decide
 
-theorem st_info_gen (b t : BitVec 8) : sym_st_info b t = Spec.stInfo b t := by
-  simp only [sym_st_info, Spec.stInfo]; bv_decide
-theorem st_info_str_gen (b t : BitVec 8) : sym_st_info_str b t = Spec.stInfo b t := by
-  simp only [sym_st_info_str, Spec.stInfo]; bv_decide
-theorem st_bind_gen32 (i : BitVec 8) : sym32_get_bind i = Spec.stBind i := by
-  simp only [sym32_get_bind, Spec.stBind]; bv_decide
-theorem st_bind_gen64 (i : BitVec 8) : sym64_get_bind i = Spec.stBind i := by
-  simp only [sym64_get_bind, Spec.stBind]; bv_decide
-theorem st_type_gen32 (i : BitVec 8) : sym32_get_type i = Spec.stType i := by
-  simp only [sym32_get_type, Spec.stType]; bv_decide
-theorem st_type_gen64 (i : BitVec 8) : sym64_get_type i = Spec.stType i := by
-  simp only [sym64_get_type, Spec.stType]; bv_decide
+/-- the shapes clang gives the `ELF_ST_INFO` / `ELF_ST_BIND` / `ELF_ST_TYPE` uses (operands promoted to
+    `int`, result converted back to `unsigned char`) are the gABI macros on `unsigned char`.  Stated
+    on explicit terms so that a change of the generated sites breaks Lemmas/Symbols.lean, not this
+    file (which the driver imports). -/
+theorem bits_st_info (b t : BitVec 8) :
+    BitVec.setWidth 8 (((BitVec.setWidth 32 b) <<< 4) + ((BitVec.setWidth 32 t) &&& 15#32)) = Spec.stInfo b t := by
+  simp only [Spec.stInfo]; bv_decide
+theorem bits_st_bind (i : BitVec 8) :
+    BitVec.setWidth 8 (BitVec.sshiftRight (BitVec.setWidth 32 i) 4) = Spec.stBind i := by
+  simp only [Spec.stBind]; bv_decide
+theorem bits_st_type (i : BitVec 8) :
+    BitVec.setWidth 8 ((BitVec.setWidth 32 i) &&& 15#32) = Spec.stType i := by
+  simp only [Spec.stType]; bv_decide
 /-- packing then unpacking keeps the low four bits of binding and type -/
 theorem st_bind_info (b t : BitVec 8) : Spec.stBind (Spec.stInfo b t) = b &&& 0xf := by
   simp only [Spec.stBind, Spec.stInfo]; bv_decide
